@@ -140,7 +140,8 @@ Definition arr_encode_item (s : ty) (i : N) (a : aval) : res (list tag) :=
        end.
 
 (* decode_item: the decoded item REPLACES self.value (the object is a one-item holder afterwards);
-   taglist.Pop() of an empty list is None and Unsigned(None) / subtype(None) are the default values *)
+   taglist.Pop() of an empty list is None and Unsigned(None) / subtype(None) are the default values
+   (except ObjectIdentifier(None), a TypeError) *)
 Definition arr_decode_item (s : ty) (dflt : val) (i : N) (ts : list tag) : res (cell * list tag) :=
   if i =? 0 then
     match ts with
@@ -149,7 +150,10 @@ Definition arr_decode_item (s : ty) (dflt : val) (i : N) (ts : list tag) : res (
     end
   else
     match ts, is_atomic s with
-    | [], true => Ok (CItem dflt, [])
+    | [], true => match s with
+                  | TAtom 12 => Err TypeErr          (* ObjectIdentifier(None): its variadic __init__ refuses None *)
+                  | _ => Ok (CItem dflt, [])
+                  end
     | _, _ => do (v, rest) <- decode s ts; Ok (CItem v, rest)
     end.
 
